@@ -37,6 +37,11 @@ type Job struct {
 	RequiredCovers []string
 	// MaxCoverReplays limits how many cover models are replayed natively (default all).
 	MaxCoverReplays int
+	// ConfirmOnlyFailures: a native panic does not confirm a counterexample (harnesses whose
+	// subject legitimately panics to reject its input); only a failed assertion does.
+	ConfirmOnlyFailures bool
+	// PanicIsCover: allowed panics become cover obligations named "rejected by panic @file:line"
+	PanicIsCover bool
 }
 
 type ObSample struct {
@@ -234,6 +239,13 @@ func (c *Ctx) runJob(j Job) {
 	var obs []engine.Obligation
 	for _, ob := range res.Obs {
 		if (ob.Kind == "panic") && allowed(ob.Rec.Msg+" @"+ob.Rec.Pos, j.AllowPanic) {
+			if j.PanicIsCover {
+				// the expected rejection is a reachability witness of its own
+				ob.Kind, ob.Expect = "cover", "sat"
+				ob.Rec.Msg = "rejected by panic @" + ob.Rec.Pos
+				ob.Rec.Kind = "cover"
+				obs = append(obs, ob)
+			}
 			continue
 		}
 		obs = append(obs, ob)
@@ -446,6 +458,9 @@ func (c *Ctx) handleCounterexample(j Job, e *engine.Engine, o engine.Outcome) {
 		confirmed = true // structural fact about the store site; nothing to observe natively
 	}
 	if nr.AssumeFailed != 0 {
+		confirmed = false
+	}
+	if j.ConfirmOnlyFailures && len(nr.Failures) == 0 {
 		confirmed = false
 	}
 	f := Finding{Job: j.Name, Ob: o.Ob.Name, Msg: fmt.Sprintf("%s: %s (%s)", o.Ob.Kind, o.Ob.Rec.Msg, o.Ob.Rec.Pos), Replay: p, Native: nr, Confirm: confirmed, What: o.Ob.Rec.Msg, Abstract: j.Abstract}
